@@ -16,6 +16,7 @@ func init() {
 		Explain: "Decides whole-string matching of the filtered member listing structurally: every format constant that wraps a user pattern before regexp.Compile in the agent's member filter is analysed with regexp/syntax — with an alternation substituted for the verb, the parse must be begin-text · (pattern) · end-text, i.e. the anchors bind the whole pattern for every operator; the compiled expressions are matched against the member's tag value for the requested tag (missing tag ⇒ empty string), its status string and its name; a member is appended only behind every requested test; a compile error returns an error and a nil list before anything is matched.",
 		Run:     runC26,
 		Mutants: []Mutant{
+			{Name: "empty-tag-pattern-skipped", File: "cmd/serf/command/agent/ipc.go", Func: "func (i *AgentIPC) filterMembers(", Old: "\tfor tag, expr := range tags {\n", New: "\tfor tag, expr := range tags {\n\t\tif expr == \"\" {\n\t\t\tcontinue\n\t\t}\n", Old2: "\t\tfor tag := range tags {\n\t\t\tif !tagsRe[tag].MatchString(m.Tags[tag]) {", New2: "\t\tfor tag, re := range tagsRe {\n\t\t\tif !re.MatchString(m.Tags[tag]) {", Expect: "R2|filterMembers:every-tag-compiled"},
 			{Name: "status-pattern-lowercased", File: "cmd/serf/command/agent/ipc.go", Func: "func (i *AgentIPC) handleMembers(", Old: "i.filterMembers(raw, req.Tags, req.Status, req.Name)", New: "i.filterMembers(raw, req.Tags, strings.ToLower(req.Status), req.Name)", Expect: "R3"},
 			{Name: "anchors-bind-loosely", File: "cmd/serf/command/agent/ipc.go", Func: "func (i *AgentIPC) filterMembers(", Old: "statusRe, err := regexp.Compile(fmt.Sprintf(\"^(?:%s)$\", status))", New: "statusRe, err := regexp.Compile(fmt.Sprintf(\"^%s$\", status))", Expect: "R1"},
 			{Name: "unanchored-name", File: "cmd/serf/command/agent/ipc.go", Func: "func (i *AgentIPC) filterMembers(", Old: "nameRe, err := regexp.Compile(fmt.Sprintf(\"^(?:%s)$\", name))", New: "nameRe, err := regexp.Compile(fmt.Sprintf(\"(?:%s)\", name))", Expect: "R1"},
@@ -195,6 +196,28 @@ func runC26(c *an.Ctx) {
 	for _, k := range comps {
 		byWhat[k.what] = k.call
 	}
+	// every requested tag gets its compiled expression: within the compile loop over the requested
+	// tags, the loop head is reached again only through the map update (no pattern, the empty one
+	// included, is skipped: "role=" selects the members without a role)
+	nUpd := 0
+	an.Instrs(fm, func(x ssa.Instruction) {
+		mu, ok := x.(*ssa.MapUpdate)
+		if !ok || an.Path(mu.Key) != "next(range($2))#1" {
+			return
+		}
+		ex, ok := mu.Key.(*ssa.Extract)
+		if !ok {
+			return
+		}
+		nx, ok := ex.Tuple.(*ssa.Next)
+		if !ok {
+			return
+		}
+		nUpd++
+		skip := an.ReachFrom(fm, nx, &an.Cut{Instrs: func(in ssa.Instruction) bool { return in == ssa.Instruction(mu) }}, func(in ssa.Instruction) bool { return in == ssa.Instruction(nx) })
+		c.Add(skip == nil, "R2", "filterMembers:every-tag-compiled", mu, "each iteration over the requested tags stores a compiled expression for that tag (or returns the compile error)", "reach/cut from the loop head back to itself")
+	})
+	c.Floor("R2", "per-tag expression stores in filterMembers", nUpd, 1)
 	seen := map[string]bool{}
 	for _, in := range an.CallsTo(fm, "regexp.(*Regexp).MatchString") {
 		call := in.(*ssa.Call)
